@@ -47,6 +47,8 @@ LayoutSet == {
     [id |-> "inter",      axes |-> AxW(300), masters |-> <<W(300), W(400), W(700)>>],   \* intermediate master at 1/4
     [id |-> "inter-neg",  axes |-> AxW(700), masters |-> <<W(300), W(500), W(700)>>],   \* at -1/2
     [id |-> "two-axes",   axes |-> AxWD(300, 100), masters |-> <<WD(300, 100), WD(700, 100), WD(300, 200)>>],
+    [id |-> "frac",       axes |-> AxW(175), masters |-> <<W(125), W(175), W(225)>>],   \* concretised at HALF these values
+                                                                                     \* (62.5 / 87.5 / 112.5): fractional positions
     [id |-> "no-default", axes |-> AxW(400), masters |-> <<W(300), W(700)>>] }      \* rejected by config.default
 LayoutSmall == {l \in LayoutSet : l.id \in {"two", "def-max", "inter", "no-default"}}
 
